@@ -838,6 +838,12 @@ func (x *Exec) evalCall(env *Env, e *SExpr) Val {
 	case "abs":
 		a := arg(0).Term()
 		return mathVal(Ite(Ge(a, IntC(0)), a, Neg(a)))
+	case "drained":
+		ch := arg(0)
+		if t, ok := env.st.ghost[chanKey(ch)+"!drained"]; ok {
+			return mathVal(t)
+		}
+		return mathVal(FalseT)
 	case "deref":
 		// deref(p): the value of the variable the pointer p points to, in the state the expression is evaluated in
 		pv := arg(0)
